@@ -173,6 +173,7 @@ def run_case(case):
         # ---- destination
         dst = os.path.join(top, "dst")
         args = []
+        extra_scale = False
         if dst_mode == "copy":
             ddt, denc = sdt, senc
             obs["copy_info"] = 1
@@ -218,6 +219,14 @@ def run_case(case):
                     del dinfo["scales"][0]
                 if how != "same":
                     obs["destination_scale_lists_reordered_or_partial"] = 1
+            if not many and not dst_sharded and rnd.random() < 0.08:
+                # the destination announces a scale the source does not have: the command
+                # cannot succeed (it must not exit 0 leaving that scale empty)
+                ex = copy.deepcopy(dinfo["scales"][-1])
+                ex["key"] = "not_in_source"
+                dinfo["scales"].append(ex)
+                extra_scale = True
+                obs["destinations_announcing_a_scale_the_source_lacks"] = 1
             dst_keys = {sc["key"] for sc in dinfo["scales"]}
             os.makedirs(dst)
             with open(os.path.join(dst, "info"), "w") as f:
@@ -254,6 +263,14 @@ def run_case(case):
                                  timeout=300)
         from harness.core import merge_obs
         merge_obs(obs, cli.read_report(report))
+        if dst_mode != "copy" and extra_scale:
+            if rc == 0:
+                v.append({"kind": "successful-command-did-not-write-all-its-chunks",
+                          "detail": f"{ctx}: the destination info announces scale "
+                          "'not_in_source', which the source does not have; exit status 0"})
+            else:
+                obs["impossible_conversions_refused"] = 1
+            return {"violations": v, "obs": obs}
         if rc != 0:
             v.append({"kind": "convert-chunks-failed",
                       "detail": f"{ctx}: exit status {rc}: {tail}"})
@@ -329,6 +346,7 @@ def gates(obs, tier):
         "encoding_changes": obs.get("encoding_change", 0) > 10,
         "multi_scale": obs.get("scales", 0) > obs.get("conversions", 0),
         "destinations_with_more_than_64_shards": obs.get("many_shards_destinations", 0) > 0,
+        "impossible_conversions_refused": obs.get("impossible_conversions_refused", 0) > 2,
         "scales_with_two_chunk_grids": obs.get("scales_with_two_chunk_grids", 0) > 5,
         "destination_scale_lists_reordered_or_partial": obs.get(
             "destination_scale_lists_reordered_or_partial", 0) > 5,
